@@ -381,7 +381,8 @@ theorem scan_complete (w : World) (root : Path) (items : List DirItem) (e : Nat)
 /-- … for the layout every generated image is built from -/
 theorem layout_tree_complete (w : World) (root : Path) (ps3 : Bool) (L : Layout) (h : layoutOf w root ps3 = some L) :
     (∀ p, Reach w root p → p ∈ L.items.map (·.path)) ∧ ∀ it ∈ L.items, ItemOk w L.items it := by
-  unfold layoutOf at h
+  have h := (layoutOf_some h).1
+  unfold layoutRaw at h
   split at h
   · split at h
     · cases h
